@@ -172,31 +172,50 @@ impl<'b, 'tx> Iterator for Cursor<'b, 'tx> {
     fn next(&mut self) -> Option<Self::Item> {
         if self.stack.is_empty() {
             self.seek_first();
-        } else if self.next_called {
-            loop {
-                {
-                    let b = self.bucket.borrow();
-                    if b.deleted {
-                        panic!("Cannot get data from a deleted bucket.");
-                    }
-                    let elem = self.stack.last_mut().unwrap();
-                    let page_node = b.page_node(elem.id);
-                    if elem.index >= (page_node.len() - 1) {
-                        if self.stack.len() == 1 {
-                            return None;
-                        }
-                        self.stack.pop();
-                        continue;
-                    } else {
-                        elem.index += 1;
-                    }
-                }
-                self.seek_first();
-                break;
-            }
+        } else if self.next_called && !self.advance() {
+            return None;
         }
         self.next_called = true;
-        self.current()
+        loop {
+            // A leaf can be empty (every key deleted in this transaction, or an empty bucket),
+            // so keep moving until there is data under the cursor or nothing is left.
+            if let Some(data) = self.current() {
+                return Some(data);
+            }
+            if !self.advance() {
+                return None;
+            }
+        }
+    }
+}
+
+impl<'b, 'tx> Cursor<'b, 'tx> {
+    // Moves the cursor to the next position in the bucket.
+    // Returns false (leaving the cursor where it is) if there is no next position.
+    fn advance(&mut self) -> bool {
+        {
+            let b = self.bucket.borrow();
+            if b.deleted {
+                panic!("Cannot get data from a deleted bucket.");
+            }
+            // find the deepest level of the stack that still has elements to the right
+            let mut level = self.stack.len();
+            loop {
+                if level == 0 {
+                    return false;
+                }
+                let elem = &self.stack[level - 1];
+                let page_node = b.page_node(elem.id);
+                if elem.index + 1 < page_node.len() {
+                    break;
+                }
+                level -= 1;
+            }
+            self.stack.truncate(level);
+            self.stack[level - 1].index += 1;
+        }
+        self.seek_first();
+        true
     }
 }
 
